@@ -700,6 +700,40 @@ def rule_tl_operators(ctx: Ctx, rule: str = "termlist-operators") -> None:
     rule_list_helpers(ctx)
 
 
+def _first_enumerated(prog: Program, fi, depth: int) -> List[Optional[str]]:
+    """For every returned expression of a list helper: the parameter whose elements come first, in their order
+    (comprehension over / concatenation starting with / copy of a parameter; a call of another helper of the package is
+    followed into that helper)."""
+    firsts: List[Optional[str]] = []
+    for r in [n for n in ast.walk(fi.node) if isinstance(n, ast.Return)]:
+        e = r.value
+        while isinstance(e, ast.BinOp) and isinstance(e.op, ast.Add):
+            e = e.left
+        if isinstance(e, ast.ListComp) and isinstance(e.generators[0].iter, ast.Name):
+            firsts.append(e.generators[0].iter.id)
+        elif isinstance(e, ast.Name):
+            firsts.append(e.id)
+        elif isinstance(e, ast.Call) and isinstance(e.func, ast.Name) and e.func.id == "list" and len(e.args) == 1 and isinstance(e.args[0], ast.Name):
+            firsts.append(e.args[0].id)
+        elif isinstance(e, ast.Call) and isinstance(e.func, ast.Name) and depth < 3 and prog.resolve_name(fi.module, e.func.id).__class__.__name__ == "FuncInfo":
+            callee = prog.resolve_name(fi.module, e.func.id)
+            inner = _first_enumerated(prog, callee, depth + 1)
+            for f in inner:
+                arg = None
+                if f in callee.params:
+                    k = callee.params.index(f)
+                    if k < len(e.args):
+                        arg = e.args[k]
+                    else:
+                        arg = next((kw.value for kw in e.keywords if kw.arg == f), None)
+                firsts.append(arg.id if isinstance(arg, ast.Name) else None)
+            if not inner:
+                firsts.append(None)
+        else:
+            firsts.append(None)
+    return firsts
+
+
 def rule_list_helpers(ctx: Ctx, rule: str = "list-helpers") -> None:
     """utils/lists.py summarised from source: membership function and order preservation."""
     from .sets import ONES as _ONES
@@ -747,20 +781,7 @@ def rule_list_helpers(ctx: Ctx, rule: str = "list-helpers") -> None:
             continue
         # order preservation: every returned expression enumerates list1 first (comprehension over / concatenation
         # starting with the first parameter, or the first parameter itself)
-        rets = [n for n in ast.walk(fi.node) if isinstance(n, ast.Return)]
-        firsts = []
-        for r in rets:
-            e = r.value
-            while isinstance(e, ast.BinOp) and isinstance(e.op, ast.Add):
-                e = e.left
-            if isinstance(e, ast.ListComp) and isinstance(e.generators[0].iter, ast.Name):
-                firsts.append(e.generators[0].iter.id)
-            elif isinstance(e, ast.Name):
-                firsts.append(e.id)
-            elif isinstance(e, ast.Call) and isinstance(e.func, ast.Name) and e.func.id == "list" and len(e.args) == 1 and isinstance(e.args[0], ast.Name):
-                firsts.append(e.args[0].id)
-            else:
-                firsts.append(None)
+        firsts = _first_enumerated(prog, fi, 0)
         construct = "%s keeps the order of its first argument" % name
         if not firsts or None in firsts:
             ctx.cannot_decide(rule, fi.key, construct, "unrecognised shape")
